@@ -169,7 +169,9 @@ def _run_verify(cell, ch, ctx, mut):
         try:
             if cell["driver"] == "ble-link":
                 return run_ble_link(ctx, ch, "PAIR_VERIFY", [lambda _: get_session_keys(pd)], vr.handle, fsize=100 + cell.get("mseed", 0) % 3 * 72)[0], None
-            return run_coap(ctx, ch, "verify", vr.handle, pairing_data=pd)[0], None
+            # error replies travel under 2.04 or under a CoAP error code (4.01 / 4.00 / 5.00), by cell
+            ecode = [None, None, "UNAUTHORIZED", "BAD_REQUEST", "INTERNAL_SERVER_ERROR"][cell.get("mseed", 0) % 5]
+            return run_coap(ctx, ch, "verify", vr.handle, pairing_data=pd, error_code=ecode)[0], None
         except Exception as e:  # noqa: BLE001
             return None, e
     pipe = Pipe("ip" if cell["driver"] == "pipe-ip" else "ble")
